@@ -53,11 +53,14 @@ Definition rs_geb {A} `{RsOrdZ A} (a : A) (b : Z) : bool := match rs_cmpz a b wi
 (* ---- arithmetic ------------------------------------------------------------------------------ *)
 Definition rs_add := Z.add.
 Definition rs_sub := Z.sub.
-Definition rs_mul := Z.mul.
+Class RsMul (A B C : Type) := rs_mul : A -> B -> C.
+#[global] Instance rsmul_Z : RsMul Z Z Z := Z.mul.
 Definition rs_div := Z.quot.
 Definition rs_rem := Z.rem.
 Definition rs_neg := Z.opp.
-Definition rs_not := negb.
+Class RsNot (A : Type) := rs_not : A -> A.
+#[global] Instance rsnot_bool : RsNot bool := negb.
+#[global] Instance rsnot_Z : RsNot Z := Z.lnot.
 Definition rs_shl := Z.shiftl.
 Definition rs_shr := Z.shiftr.
 Definition rs_xor := Z.lxor.
@@ -91,6 +94,9 @@ Definition m_is_negative (a : Z) := a <? 0.
 Definition m_not := negb.
 Definition m_sign (a : Z) : sign := match a with Z0 => NoSign | Zpos _ => Plus | Zneg _ => Minus end.
 Definition m_get {A} (a : A) := a.
+Definition f_value {A} (a : A) := a.          (* StarlarkBigInt { value: BigInt } *)
+Definition m_cmp (a b : Z) : comparison := Z.compare a b.
+Definition m_reverse := CompOpp.
 Definition m_clone {A} (a : A) := a.
 Definition m_into {A} (a : A) := a.
 (* num_traits::ToPrimitive on BigInt *)
